@@ -240,6 +240,7 @@ def run_suite(suite, tier, repo, ev, findings, prop, seed=0):
                 undecided.append('kani build of %s [%s] failed: %s' % (suite['crate'], cfgname, r['build_error'][-1500:]))
             continue
         cover_seen = {}
+        n_replayed = 0
         for h in names:
             res = r['results'].get(h)
             rec = dict(harness=h, config=cfgname, crate=suite['crate'], cmd=r['cmd'])
@@ -269,7 +270,11 @@ def run_suite(suite, tier, repo, ev, findings, prop, seed=0):
                 undecided.append('kani harness %s [%s]: unwinding bound too small (%s)' % (h, cfgname, unwind[0]))
             if res['checks'] == 0:
                 rec['status'] = 'undecided'; undecided.append('kani harness %s [%s]: zero checks (vacuity guard)' % (h, cfgname))
-            if bad:
+            if bad and n_replayed >= suite.get('max_replays', 3):
+                # further failing harnesses of the same suite are listed in the evidence; the first ones carry the replay
+                ev.setdefault('additional_failures', []).append(dict(harness=h, config=cfgname, failed=['%s (%s)' % b for b in bad][:4]))
+            elif bad:
+                n_replayed += 1
                 pb = run_pool(crate_dir, [h], features=feats, timeout=(tmo(h, tier) if tmo else 900) * 2, playback=True,
                               module=suite.get('module', 'proofs'), extra=suite.get('extra', ()))
                 vals = (pb['results'].get(h) or {}).get('playback')
